@@ -38,6 +38,7 @@ def run(tier, rep):
     fe.mc(rep, "items", 3 if quick else 4, maxpay=1, damage=True, optset="OptCore" if quick else "OptAll", bundle=bundle)
     rnd = rng("c05")
     pool = stream_corpus.payload_pool(bundle, "c05", 80)
+    pool += stream_corpus.syncy_payloads(rnd, 40)
     tr = fe.Traces(rep)
     n = 36 if quick else 360
     for i in range(n):
